@@ -2040,6 +2040,21 @@ def M_prim_ne(it, ctx, args, st):
     yield st, z3.Not(val_eq(st.deref_all(args[0]), st.deref_all(args[1])))
 
 
+def M_ref_partial_eq(it, ctx, args, st):
+    """impl PartialEq<&B> for &A: eq(&self, other) = PartialEq::eq(*self, *other) (likewise ne)"""
+    A, B = ctx.self_ty, (ctx.targs[0] if ctx.targs else ctx.self_ty)
+    if A[0] != 'ref' or B[0] != 'ref':
+        raise Unsupported('PartialEq on references: unexpected types ' + ty_str(A))
+    a, b = st.deref(args[0]), st.deref(args[1])
+    if not isinstance(a, Ptr) or not isinstance(b, Ptr):
+        raise Unsupported('PartialEq on references: arguments are not references to references')
+    yield from it.call_trait(ctx.fr, A[2], 'std::cmp::PartialEq', ctx.callee.method, [], [a, b], st, targs=[B[2]])
+
+
+def M_from_identity(it, ctx, args, st):
+    yield st, args[0]
+
+
 def M_option_default(it, ctx, args, st):
     yield st, it.none
 
@@ -2353,7 +2368,7 @@ MODELS = [
     (RES + r'(unwrap_err|expect_err)', M_res_unwrap_err), (OPT + r'(is_some_and|is_none_or)::<.*>', M_is_some_and), (RES + r'(is_ok_and|is_err_and)::<.*>', M_is_some_and),
     (P + r'ops::RangeInclusive::<.*>::new', M_range_inclusive_new), (P + r'ops::(?:range::)?Range(?:Inclusive)?::<.*>::contains::<.*>', M_range_contains),
     (r'<u8 as ' + P + r'convert::TryFrom<char>>::try_from', M_u8_try_from_char),
-    (r'<' + P + r'(?:result::Result|option::Option)<.*> as ' + P + r'iter::IntoIterator>::into_iter', M_res_into_iter, lambda it, ctx, args, st: isinstance(args[0], Enum) or (isinstance(args[0], Ptr) and isinstance(st.deref_all(args[0]), Enum))),
+    (r'<&*' + P + r'(?:result::Result|option::Option)<.*> as ' + P + r'iter::IntoIterator>::into_iter', M_res_into_iter, lambda it, ctx, args, st: isinstance(args[0], Enum) or (isinstance(args[0], Ptr) and isinstance(st.deref_all(args[0]), Enum))),
     (r'<(?:[iu](?:8|16|32|64|128|size)|f64|f32|bool) as ' + P + r'str::FromStr>::from_str', M_from_str_trait),
     (P + r'str::<impl str>::split_once::<char>', M_str_split_once_char),
     (r'<(?:bytes::BytesMut|' + P + r'string::String|' + P + r'vec::Vec<u8>) as ' + P + r'(?:fmt|io)::Write>::write_fmt', M_write_fmt_to_buffer),
@@ -2456,6 +2471,9 @@ MODELS = [
     (r'<[iu](?:8|16|32|64|128|size) as ' + P + r'clone::Clone>::clone|<bool as ' + P + r'clone::Clone>::clone', M_clone),
     (r'<(?:&.*|' + P + r'(?:option::Option|result::Result|vec::Vec|string::String|boxed::Box|collections::\w+)<?.*>?) as ' + P + r'clone::Clone>::clone', M_clone),
     (r'<' + P + r'option::Option<.*> as ' + P + r'default::Default>::default', M_option_default),
+    (r'<&.* as ' + P + r'cmp::PartialEq(?:<&.*>)?>::(?:eq|ne)', M_ref_partial_eq, lambda it, ctx, args, st: ctx.self_ty[0] == 'ref' and strip_refs(ctx.self_ty)[0] == 'path' and strip_refs(ctx.self_ty)[1] not in INT_BITS and last_seg(strip_refs(ctx.self_ty)[1]) not in ('str', 'String', 'bool', 'char', 'Option')),
+    (r'<(bool|char|f32|f64|[iu](?:8|16|32|64|128|size)|' + P + r'string::String) as ' + P + r'convert::From<\1>>::from', M_from_identity),
+    (r'<' + P + r'string::String as ' + P + r'convert::From<char>>::from', M_char_to_string),
     (r'<' + P + r'option::Option<.*> as ' + P + r'cmp::PartialEq>::eq', M_prim_eq), (r'<' + P + r'option::Option<.*> as ' + P + r'cmp::PartialEq>::ne', M_prim_ne),
     (r'<\{async fn body of .*\} as (?:futures_core|std::future|core::future)::Future>::poll', M_poll_async_body),
     (r'<' + P + r'boxed::Box<dyn .*> as ' + P + r'convert::From<.*>>::from', M_identity),
